@@ -19,6 +19,12 @@ position).
 * `C24_agree_partial` — hence `lang` and `unsep tx unproved` accept, and reject, exactly the same
   inputs, for every lexer that satisfies the generated hypotheses `hyps`.
 
+* `C24_bisim_sound_sep`, `C24_check_tx`, `C24_check_trap`, `C24_agree_tx_partial`, `C24_agree_tx_run_partial` —
+  the step from `unsep tx unproved` to `tx` itself, under the hypothesis that no separator of the two RREL
+  repetitions is followed by a non-element: for all positions (`NoTrailingSep`) or, much weaker, on the actual run
+  (`CleanRun`, defined by the instrumented graph `trap tx unproved`).  See the section further down.
+* `C24_never_bad` — the generated graphs never yield the "malformed model" result.
+
 What is *not* proved (hence `_partial`): `unproved` lists the separator repetitions of `textx.tx`
 (`paths+=RRELPath[',']`, `parts+=RRELPathPart['.']`) which `rrel.py` states as `(x sep)* x`.
 `x+[sep]` and `(x sep)* x` are different PEG expressions (after `x sep` with no further `x` the
@@ -314,6 +320,17 @@ theorem C24_agree_tx_run_partial (L : Lex) (hL : LexOk hyps L) (hrun : CleanRun 
     ⟨m2, hm2 m2 (Nat.le_refl _)⟩
   have h0 := C24_agree_partial L hL
   exact ⟨h0.1.trans h12.1.symm, h0.2.trans h12.2.symm⟩
+
+
+/-- none of the generated graphs is malformed: `Rec.parse` never yields `.bad` on them — every run ends in
+acceptance, rejection or `.fuel` (kernel evaluation of `noBadB`, then `parse_ne_bad` for all lexers,
+nodes, positions and fuel) -/
+theorem C24_never_bad (L : Lex) (n a : Nat) (c : Bool) (p : Nat) :
+    (a < lang.size → parse lang L n a c p ≠ .bad) ∧ (a < tx.size → parse tx L n a c p ≠ .bad) ∧
+    (a < (unsep tx unproved).size → parse (unsep tx unproved) L n a c p ≠ .bad) ∧
+    (a < (trap tx unproved).size → parse (trap tx unproved) L n a c p ≠ .bad) :=
+  ⟨parse_ne_bad (by decide +kernel) n a c p, parse_ne_bad (by decide +kernel) n a c p,
+   parse_ne_bad (by decide +kernel) n a c p, parse_ne_bad (by decide +kernel) n a c p⟩
 
 /-! ### why the RREL separator repetitions are left to correspondence: the two formulations differ -/
 
